@@ -14,6 +14,7 @@ package siml
 
 import (
 	"bytes"
+	"crypto/sha256"
 	"fmt"
 	"sort"
 	"strings"
@@ -275,6 +276,35 @@ func requirement(w *World, d *Deployed, c *CallInfo) wReq {
 			}
 			return h, true
 		}
+		// servedNameOwner: the owner (other than the Container contract) of the
+		// name a live container bears, while that name serves the container's own
+		// record — taking the record away is a change NNS wants that owner for
+		servedNameOwner := func(cid []byte, except string) (util.Uint160, bool) {
+			it, err := w.readNoHook(d.Hash, "alias", cid)
+			if err != nil {
+				return util.Uint160{}, false
+			}
+			dom := ItemBytes(it)
+			if len(dom) == 0 || string(dom) == except {
+				return util.Uint160{}, false
+			}
+			recs, err := w.readNoHook(w.C["nns"].Hash, "getRecords", string(dom), int64(16))
+			if err != nil {
+				return util.Uint160{}, false
+			}
+			served := false
+			if arr, ok := recs.Value().([]stackitem.Item); ok {
+				for _, x := range arr {
+					if b, err := x.TryBytes(); err == nil && string(b) == ctBase58(cid) {
+						served = true
+					}
+				}
+			}
+			if !served {
+				return util.Uint160{}, false
+			}
+			return domainOwner(string(dom))
+		}
 		switch m {
 		case "putNamed":
 			if len(c.Args) == 6 {
@@ -283,10 +313,25 @@ func requirement(w *World, d *Deployed, c *CallInfo) wReq {
 				if len(zone) == 0 {
 					zone = []byte("container")
 				}
+				req := wReq{known: true, alts: [][]util.Uint160{wAlt(A)}}
+				extra := false
+				newDom := ""
 				if len(name) > 0 {
-					if h, ok := domainOwner(string(name) + "." + string(zone)); ok {
-						return and(wReq{known: true, alts: [][]util.Uint160{wAlt(A)}}, h)
+					newDom = string(name) + "." + string(zone)
+					if h, ok := domainOwner(newDom); ok {
+						req, extra = and(req, h), true
 					}
+					// a live container put under another name gives up the one it
+					// bears (repair 59f6f37): that name's owner is asked as well
+					if blob, ok := argBytes(c.Args[0]); ok {
+						cid := sha256.Sum256(blob)
+						if h, ok := servedNameOwner(cid[:], newDom); ok {
+							req, extra = and(req, h), true
+						}
+					}
+				}
+				if extra {
+					return req
 				}
 			}
 			return reqA
